@@ -204,7 +204,7 @@ fn gen_cases(cfg: &Cfg) -> Vec<Case> {
         }
     }
     // random mixtures of everything
-    let n = cfg.tier.pick(6_000u64, 150_000);
+    let n = cfg.tier.pick(6_000u64, 600_000);
     for i in 0..n {
         let mut r = Rng::for_case(cfg.seed, "C05", i);
         let same = r.chance(1, 2);
